@@ -47,7 +47,8 @@ EXTRA_TARGETS = ["Drv.LinSolve"]
 DRIVER = "LinSolve"
 FILES = ["scico/optimize/_admmaux.py", "scico/solver.py", "scico/loss.py", "scico/linop/_circconv.py"]
 RULE = (
-    "streams dense (Linear/scico-cg, Linear/jax-cg, Matrix, Generic on the same problem), circ, fblock, g0: random sizes (n<=5, "
+    "streams dense (Linear/scico-cg, Linear/jax-cg, Matrix, Generic on the same problem), history (the same, on a loss that was "
+    "used - Hessian, prox, an ADMM built on it - and then rescaled by c*L, L*c, L/c, set_scale, twice), circ, fblock, g0: random sizes (n<=5, "
     "K<=3, N<=6), real/complex, f none/Matrix/Diagonal/CircularConvolve/Identity forward operator, scale in {0.25,0.5,1,2}, weights "
     "none/positive/with zeros, 1-3 C_i (Identity, Diagonal, MatrixOperator, CircularConvolve, circular FiniteDifference), rho dyadic>0, "
     "random z,u,x0; a case is non-trivial when the normal-equation matrix is not a multiple of the identity; distinct by full input."
@@ -153,6 +154,33 @@ def gen_dense(rng):
     return {"kind": "dense", "n": n, "cplx": cplx, "f": f, "terms": terms, "x0": tolist(lu.rnd(rng, (n,), cplx, dy))}
 
 
+def gen_history(rng):
+    """dense problem whose loss was used and rescaled before the x-step (c*L, L*c, L/c, set_scale, scaled twice)"""
+    while True:
+        case = gen_dense(rng)
+        if case["f"] is not None:
+            break
+    final = case["f"]["scale"]
+    uses = [["use", str(rng.choice(["hessian", "prox", "admm"]))]]
+    c = float(rng.choice([2.0, 4.0, 0.5, 0.25, 8.0]))
+    kind = str(rng.choice(["mul", "rmul", "div", "set_scale", "mul-mul", "use-mul-use-div", "set_scale-mul"]))
+    if kind in ("mul", "rmul"):
+        steps, s0 = uses + [[kind, c]], final / c
+    elif kind == "div":
+        steps, s0 = uses + [["div", c]], final * c
+    elif kind == "set_scale":
+        steps, s0 = uses + [["set_scale", final]], final * c
+    elif kind == "mul-mul":
+        steps, s0 = uses + [["mul", c], ["use", "hessian"], ["rmul", 2.0]], final / (2.0 * c)
+    elif kind == "use-mul-use-div":
+        steps, s0 = uses + [["mul", c], ["use", "prox"], ["div", 4.0]], final * 4.0 / c
+    else:
+        steps, s0 = uses + [["set_scale", final / c], ["use", "hessian"], ["mul", c]], 3.0 * final
+    case["f"]["history"] = {"scale0": s0, "steps": steps, "kind": kind}
+    case["kind"] = "history"
+    return case
+
+
 def _dense_numpy(case):
     """the documented system in numpy: H x = q"""
     n, cplx = case["n"], case["cplx"]
@@ -192,7 +220,31 @@ def _build_dense(case, solver_obj):
         A = _arr(cf["A"], cplx)
         Aop = linop.MatrixOperator(jnp.array(A.reshape(cf["m"], n), dtype=dt)) if cf["kind"] == "matrix" else linop.Diagonal(jnp.array(A, dtype=dt))
         W = None if cf["W"] is None else linop.Diagonal(jnp.array(np.array(cf["W"]), dtype=np.float64))
-        f = loss.SquaredL2Loss(y=jnp.array(_arr(cf["y"], cplx), dtype=dt), A=Aop, scale=cf["scale"], W=W)
+        hist = cf.get("history")
+        f = loss.SquaredL2Loss(y=jnp.array(_arr(cf["y"], cplx), dtype=dt), A=Aop, scale=cf["scale"] if not hist else hist["scale0"], W=W)
+        if hist:
+            # the loss has a past: it is used (Hessian, prox, an ADMM with a Linear-family solver built on it) and then
+            # rescaled; the x-step must see the loss as it is now (effective scale = cf["scale"])
+            x0h = jnp.array(_arr(case["x0"], cplx), dtype=dt)
+            for step in hist["steps"]:
+                if step[0] == "use":
+                    _ = np.array(f.hessian(x0h))
+                    _ = float(f(x0h))
+                    if step[1] == "prox":
+                        _ = np.array(f.prox(x0h, 0.5))
+                    elif step[1] == "admm":
+                        ADMM(f=f, g_list=[functional.ZeroFunctional()], C_list=[linop.Identity((n,), input_dtype=dt)], rho_list=[1.0], x0=x0h,
+                             maxiter=1, subproblem_solver=S["aux"].LinearSubproblemSolver())
+                elif step[0] == "mul":
+                    f = step[1] * f
+                elif step[0] == "rmul":
+                    f = f * step[1]
+                elif step[0] == "div":
+                    f = f / step[1]
+                elif step[0] == "set_scale":
+                    f.set_scale(step[1])
+            if abs(float(f.scale) - cf["scale"]) > 1e-12:
+                raise common.Infra(f"history does not end at the declared scale: {float(f.scale)} vs {cf['scale']}")
     C_list = []
     for t in case["terms"]:
         if t["kind"] == "identity":
@@ -290,6 +342,8 @@ def run_dense(ctx, model, case):
     if case["f"] is not None:
         ctx.count(f"dense:scale={case['f']['scale']}")
         ctx.count("dense:W=" + ("none" if case["f"]["W"] is None else "zeros" if 0.0 in case["f"]["W"] else "positive"))
+    if case["f"] is not None and case["f"].get("history"):
+        ctx.count("history:" + case["f"]["history"]["kind"])
     ctx.count(f"dense:terms={len(case['terms'])}")
     for t in case["terms"]:
         ctx.count("dense:C=" + t["kind"])
@@ -701,10 +755,10 @@ def run_block(ctx, model, case):
 
 # =============================================================================================
 
-RUNNERS = {"dense": run_dense, "circ": run_circ, "fblock": run_block, "g0": run_block}
-GENS = {"dense": gen_dense, "circ": gen_circ, "fblock": lambda rng: gen_block(rng, "fblock"), "g0": lambda rng: gen_block(rng, "g0")}
-ORACLES = {"dense": oracle_dense, "circ": oracle_circ, "fblock": oracle_block, "g0": oracle_block}
-BUDGET = {"dense": (24, 250), "circ": (30, 300), "fblock": (16, 160), "g0": (16, 160)}
+RUNNERS = {"dense": run_dense, "history": run_dense, "circ": run_circ, "fblock": run_block, "g0": run_block}
+GENS = {"dense": gen_dense, "history": gen_history, "circ": gen_circ, "fblock": lambda rng: gen_block(rng, "fblock"), "g0": lambda rng: gen_block(rng, "g0")}
+ORACLES = {"dense": oracle_dense, "history": oracle_dense, "circ": oracle_circ, "fblock": oracle_block, "g0": oracle_block}
+BUDGET = {"dense": (20, 220), "history": (12, 120), "circ": (30, 300), "fblock": (16, 160), "g0": (16, 160)}
 
 G0_WITNESS = {"kind": "g0", "K": 1, "N": 2, "cplx": False, "h": [1.0], "ks": 1, "y": [0.0, 0.0], "scale": 2.0, "rho1": 1.0, "z1": [1.0, 1.0], "u1": [0.0, 0.0],
               "terms": [{"kind": "identity", "rho": 1.0, "z": [0.0, 0.0], "u": [0.0, 0.0]}]}
